@@ -24,11 +24,12 @@ def opt_text(rng, p_none=0.3, maxlen=10, alph=ALPH):
 
 
 def random_tree(rng, size, max_depth=30, names=None, text_alph=ALPH, p_ns=0.25, p_attr=0.4, p_extras=0.2, p_tail=0.3,
-                p_prefix=0.2):
+                p_prefix=0.2, p_same_id=0.0):
     """Nodes are created bare, decorated, then attached with add_child (random positions); namespaces are declared
     with add_namespace both before and after attaching (re-declarations in subtrees included)."""
-    def new_node():
-        n = Node(rng.choice(names) if names and rng.random() < 0.7 else ustr(rng, 6, text_alph) or "n")
+    def new_node(same_id_as=None):
+        n = Node(rng.choice(names) if names and rng.random() < 0.7 else ustr(rng, 6, text_alph) or "n",
+                 id=same_id_as.id if same_id_as is not None else None)
         n.content = opt_text(rng, 0.35, 12, text_alph)
         if rng.random() < p_tail:
             n.tail = ustr(rng, 8, text_alph)
@@ -57,7 +58,7 @@ def random_tree(rng, size, max_depth=30, names=None, text_alph=ALPH, p_ns=0.25, 
         p, d = rng.choice(nodes)
         if d >= max_depth:
             p, d = nodes[0]
-        c = new_node()
+        c = new_node(same_id_as=p if rng.random() < p_same_id else None)   # caller-assigned ids may repeat, even along one path
         p.add_child(c, None if rng.random() < 0.6 else rng.randint(0, len(p.children)))
         nodes.append((c, d + 1))
     # declarations after the tree exists: new prefixes, re-declarations (same prefix, new URI), removals
